@@ -15,6 +15,8 @@ typedef void (*stagefn)(const mjModel*, mjData*);
 static void st_rk4(const mjModel* m, mjData* d) { mj_RungeKutta(m, d, 4); }
 static void st_step3(const mjModel* m, mjData* d) { for (int i = 0; i < 3; i++) mj_step(m, d); }
 static void st_fwdinv(const mjModel* m, mjData* d) { mj_forward(m, d); mj_inverse(m, d); }
+// inverse dynamics alone: qacc is its input and is not part of the integration state, so it is set here
+static void st_inverse_q(const mjModel* m, mjData* d) { for (int i = 0; i < m->nv; i++) d->qacc[i] = 0.25 * ((i % 5) - 2) + 0.01 * i; mj_inverse(m, d); }
 static struct { const char* name; stagefn fn; } STAGES[] = {
   {"mj_checkPos", mj_checkPos}, {"mj_checkVel", mj_checkVel}, {"mj_checkAcc", mj_checkAcc},
   {"mj_fwdPosition", mj_fwdPosition}, {"mj_sensorPos", mj_sensorPos}, {"mj_energyPos", mj_energyPos},
@@ -23,7 +25,7 @@ static struct { const char* name; stagefn fn; } STAGES[] = {
   {"mj_fwdConstraint", mj_fwdConstraint}, {"mj_sensorAcc", mj_sensorAcc}, {"mj_compareFwdInv", mj_compareFwdInv},
   {"mj_Euler", mj_Euler}, {"mj_implicit", mj_implicit}, {"mj_RungeKutta,4", st_rk4},
   {"mj_forward", mj_forward}, {"mj_step", mj_step}, {"mj_inverse", mj_inverse},
-  {"mj_step3", st_step3}, {"mj_forward_inverse", st_fwdinv},
+  {"mj_step3", st_step3}, {"mj_forward_inverse", st_fwdinv}, {"mj_inverse_q", st_inverse_q},
   {NULL, NULL}};
 static stagefn find_stage(const char* n) {
   for (int i = 0; STAGES[i].name; i++) if (!strcmp(STAGES[i].name, n)) return STAGES[i].fn;
